@@ -4,7 +4,7 @@
 # usage: par_harmless.sh [workers=7] [id-glob='*']
 set -u
 W=${1:-7}; GLOB=${2:-*}
-VERIF=/verif; SCRATCH=${SCRATCH:-/tmp/par_harmless}
+VERIF=/verif; SCRATCH=${SCRATCH:-/tmp/par_harmless.$$}
 rm -rf "$SCRATCH"; mkdir -p "$SCRATCH"
 ids=$(cd $VERIF/harmless && ls -d $GLOB | sort)
 run_one() {
